@@ -309,6 +309,23 @@ pub fn run(ws: &Ws, prop: &str, opts: &Opts) -> Result<i32, String> {
 
 type MiriViolation = (String, String, Value);
 
+/// Builds codecsim for the interpreter once (setup), so that the first check run does not pay for it.
+pub fn warm_miri(ws: &Ws) -> Result<(), String> {
+    let out = Command::new("cargo")
+        .args(["+nightly", "miri", "run", "--offline", "--release", "-q", "-p", "codecsim", "--", "miri", "--engine", "c12", "--seed", "1", "--cases", "1"])
+        .current_dir(&ws.dir)
+        .env("CARGO_NET_OFFLINE", "true")
+        .env("CARGO_TARGET_DIR", ws.target_dir().join("miri-target"))
+        .env("MIRIFLAGS", "-Zmiri-disable-isolation")
+        .stdin(Stdio::null())
+        .output()
+        .map_err(|e| format!("cargo miri: {e}"))?;
+    if !out.status.success() || !String::from_utf8_lossy(&out.stdout).contains("MIRI-OK") {
+        return Err(format!("the Miri build of codecsim failed:\n{}", String::from_utf8_lossy(&out.stderr).lines().rev().take(30).collect::<Vec<_>>().into_iter().rev().collect::<Vec<_>>().join("\n")));
+    }
+    Ok(())
+}
+
 fn miri_leg(ws: &Ws, engine: &str, opts: &Opts, cases: u64) -> Result<(Value, Option<MiriViolation>), String> {
     let start = Instant::now();
     // Several interpreter processes in parallel, each with its own slice of the case numbers.
